@@ -29,7 +29,8 @@ func (eval Evaluator) Automorphism(ctIn *Ciphertext, galEl uint64, opOut *Cipher
 		return fmt.Errorf("cannot apply Automorphism: %w", err)
 	}
 
-	level := utils.Min(ctIn.Level(), opOut.Level())
+	// A key below the operands' level brings the operation down to its own level (see ApplyEvaluationKey).
+	level := utils.Min(utils.Min(ctIn.Level(), opOut.Level()), evk.LevelQ())
 
 	opOut.Resize(opOut.Degree(), level)
 
@@ -75,6 +76,10 @@ func (eval Evaluator) AutomorphismHoisted(level int, ctIn *Ciphertext, c1DecompQ
 	var evk *GaloisKey
 	if evk, err = eval.CheckAndGetGaloisKey(galEl); err != nil {
 		return fmt.Errorf("cannot apply AutomorphismHoisted: %w", err)
+	}
+
+	if level > evk.LevelQ() {
+		return fmt.Errorf("cannot apply AutomorphismHoisted: level %d is above the level %d of the GaloisKey", level, evk.LevelQ())
 	}
 
 	opOut.Resize(opOut.Degree(), level)
